@@ -60,6 +60,7 @@ int align_to(int n, int align) {
 char *format(char *fmt, ...) { static char buf[8] = ".L..0"; return buf; }
 void strarray_push(StringArray *arr, char *s) {}
 bool struct_in_memory(Type *ty) { VASSERT(0, "codegen.c struct_in_memory reached (not stubbed faithfully)"); return false; }
+bool struct_ret_in_memory(Type *ty) { VASSERT(0, "codegen.c struct_ret_in_memory reached (not stubbed faithfully)"); return false; }
 int struct_reg_class(Type *ty) { VASSERT(0, "codegen.c struct_reg_class reached (not stubbed faithfully)"); return 2; }
 
 #endif
